@@ -605,6 +605,7 @@ def run(ctx):
     ]
     float_path_oracle(ctx)
     general_pad_oracle(ctx)
+    passthrough_oracle(ctx)
     return C.finish(ctx, "proof")
 
 
@@ -698,6 +699,115 @@ def general_pad_oracle(ctx):
             break
 
 
+PASS_DTYPES = ["int64", "uint64", "int64", "uint64", "int32", "uint32", "int16", "uint16", "int8", "uint8",
+               "float64", "float32", "float16", "bool"]
+
+
+def gen_passthrough_case(ctx):
+    """Features of any dtype whose values use the dtype's whole range: 64-bit integers of magnitude above 2**53
+    (odd ones, which float64 cannot hold), the dtype's extremes, mixed with ordinary magnitudes."""
+    r = ctx.rng
+    dt = r.choice(PASS_DTYPES)
+    nd = r.choice([1, 2, 2, 3])
+    shape = [r.randint(1, 4) for _ in range(nd)]
+    axis = r.randrange(-nd, nd)
+    shape[axis] = r.randint(2, 6)
+    concat = r.random() < 0.5
+    lim = nd if concat else nd + 1
+    n = prod(shape)
+    if dt == "bool":
+        data = [r.random() < 0.5 for _ in range(n)]
+    elif dt.startswith("float"):
+        big = dict(float64=1.7e308, float32=3.4e38, float16=65504.0)[dt]
+        data = [r.choice([big, -big, 1.0 / 3, -0.0, 1e-7, float(r.randint(-40, 40)), r.uniform(-1, 1) * big]) for _ in range(n)]
+    else:
+        bits = int(dt.lstrip("uint"))
+        lo, hi = (0, 2 ** bits - 1) if dt.startswith("u") else (-2 ** (bits - 1), 2 ** (bits - 1) - 1)
+        style = r.choice(["extremes", "above-2**53", "counter", "mixed"])
+        data = []
+        start = r.choice([2 ** 53 - 2, 2 ** 60 + 1, hi - n - 1]) if bits == 64 else hi - n - 1
+        for k in range(n):
+            u = r.random()
+            if style == "counter":
+                v = start + k  # e.g. a sample counter crossing 2**53
+            elif style == "extremes" or (style == "mixed" and u < 0.3):
+                v = r.choice([hi, lo, hi - 1, lo + 1, hi - r.randint(0, 1000), hi // 2 + 1])
+            elif style == "above-2**53" or (style == "mixed" and u < 0.6):
+                v = r.choice([1, -1]) * (r.randint(2 ** 53, 2 ** 63 - 1) | 1) if bits == 64 else r.randint(lo, hi)
+            else:
+                v = r.randint(-40, 40)
+            data.append(min(max(v, lo), hi))
+    return dict(kind="passthrough", shape=shape, data=data, dtype=dt, axis=axis, target_axis=r.randrange(-lim, lim),
+                concatenate=concat, num_deltas=r.choice([1, 1, 2, 3]), context_window=r.choice([1, 2, 3]),
+                pad_mode=r.choice(PAD_MODES), cval=0, in_place=r.random() < 0.3)
+
+
+def passthrough_check(np, post, case):
+    """"Returns the input followed by ...": the leading block of the result is the input, bit for bit, in every
+    dtype.  -> None or a message."""
+    import warnings
+
+    x = np.array(case["data"], dtype=np.dtype(case["dtype"])).reshape(case["shape"])
+    keep = x.copy()
+    d = post.Deltas(case["num_deltas"], target_axis=case["target_axis"], concatenate=case["concatenate"],
+                    context_window=case["context_window"], pad_mode=case["pad_mode"])
+    with warnings.catch_warnings():
+        warnings.simplefilter("ignore")  # the delta blocks of extreme values may overflow the dtype: not judged here
+        try:
+            out = d.apply(x, axis=case["axis"], in_place=case["in_place"])
+        except Exception as e:  # noqa: BLE001
+            return "raises %s: %s" % (type(e).__name__, e)
+    nd = x.ndim
+    if out.dtype != x.dtype:
+        return "dtype %s for %s input" % (out.dtype, x.dtype)
+    if keep.tobytes() != x.tobytes():
+        return "the input array was modified"
+    if case["concatenate"]:
+        ta = case["target_axis"] % nd
+        want_shape = list(x.shape)
+        want_shape[ta] *= case["num_deltas"] + 1
+        if list(out.shape) != want_shape:
+            return "shape %r, documented %r" % (list(out.shape), want_shape)
+        lead = np.take(out, range(x.shape[ta]), axis=ta)
+    else:
+        ta = case["target_axis"] % (nd + 1)
+        want_shape = list(x.shape)
+        want_shape.insert(ta, case["num_deltas"] + 1)
+        if list(out.shape) != want_shape:
+            return "shape %r, documented %r" % (list(out.shape), want_shape)
+        lead = np.take(out, 0, axis=ta)
+    lead = np.ascontiguousarray(lead)
+    if lead.tobytes() != keep.tobytes():
+        diff = [idx for idx in np.ndindex(*keep.shape) if lead[idx].tobytes() != keep[idx].tobytes()]
+        i0 = diff[0]
+        return "the leading block of the result is not the input: %d of %d entries differ, e.g. at %r input %r, result %r" % (
+            len(diff), keep.size, list(i0), keep[i0].item(), lead[i0].item())
+    return None
+
+
+def passthrough_oracle(ctx):
+    """Outside the model's integer-coded runs (small integers, exact in float64): features that use the whole range
+    of their dtype.  Whatever the delta blocks become, the first block of the result is the input itself."""
+    C.ensure_impl_path()
+    import numpy as np
+    from pydrobert.speech import post
+
+    worst = None
+    for rep in range(ctx.scale(400, 4000)):
+        case = gen_passthrough_case(ctx)
+        msg = passthrough_check(np, post, case)
+        ctx.count("passthrough:%s" % case["dtype"])
+        if case["dtype"] in ("int64", "uint64") and any(abs(v) > 2 ** 53 for v in case["data"]):
+            ctx.count("passthrough:64-bit-above-2**53")
+        ctx.case(dict(case=case), nontrivial=True)
+        if msg and (worst is None or prod(case["shape"]) < prod(worst[0]["shape"])):
+            worst = (case, msg)
+    if worst:
+        case, msg = worst
+        ctx.fail("property violated on the implementation: %s; input %r" % (msg, brief(case)),
+                 dict(input=case, messages=[msg]), kind="impl")
+
+
 def replay(ctx, rp):
     """./check C15 --replay <file>: re-run the recorded input on the implementation
     (direct oracle) and on the model (inside Coq)."""
@@ -710,6 +820,11 @@ def replay(ctx, rp):
     regenerate(ctx)
     rep = rp.get("failure", {}).get("replay", {})
     case = rep.get("input")
+    if isinstance(case, dict) and case.get("kind") == "passthrough":
+        msg = passthrough_check(np, post, case)
+        print("input:", case)
+        print("oracle:", msg or "the leading block of the result is the input")
+        return 1 if msg else 0
     if not isinstance(case, dict) or case.get("kind") not in ("deltas", "stack"):
         print(__import__("json").dumps(rp, indent=1))
         return 0
